@@ -101,6 +101,23 @@ pub fn payload(seed: u64, tag: u64, index: u64, len: usize) -> Vec<u8> {
     let mut rng = ChaCha8Rng::from_seed(key);
     let mut v = vec![0u8; len];
     rng.fill_bytes(&mut v);
+    // a quarter of all payloads are STRUCTURED rather than uniformly random: whole 64-byte blocks
+    // (or the whole of a short shard) are zero, as in zero-padded messages and sparse data -
+    // shortcuts for all-zero blocks are only exercised by such data
+    let h = rng.next_u64();
+    if h % 4 == 0 {
+        if len <= 64 {
+            if h % 8 == 0 {
+                v.fill(0);
+            }
+        } else {
+            for (b, chunk) in v.chunks_mut(64).enumerate() {
+                if (h >> (2 + (b % 40))) & 1 == 1 {
+                    chunk.fill(0);
+                }
+            }
+        }
+    }
     v
 }
 
